@@ -180,14 +180,16 @@ def wl_threshold(ctx, rng, case):
             try:
                 fn = rng.choice([st.add, st.remove])
                 if how == "float amount":
-                    fn(k, 2.0)
+                    ret = fn(k, 2.0)
                 elif how == "None amount":
-                    fn(k, None)
+                    ret = fn(k, None)
                 else:
-                    st.add_alt(k, list(st.hashes(k)) + [7, 11], 0)
-                raise Inconclusive("a call the unchanged library refuses was accepted")
-            except Inconclusive:
-                raise
+                    ret = st.add_alt(k, list(st.hashes(k)) + [7, 11], 0)
+                # an implementation that accepts the call has performed an operation on the key: the value it returned is the key's most
+                # recent estimate as far as the table is concerned
+                ctx.count("threshold.odd_calls_that_were_accepted")
+                if isinstance(ret, int):
+                    last[k] = ret
             except Exception:
                 ctx.count("threshold.refused_calls")
         elif r < 0.6 or not live:
